@@ -19,7 +19,7 @@ R = REPO + "/aldor"                      # autotools top
 # Pre-built Aldor libraries (.ao/.al/.a, aldor.conf).  Normally /repo itself; a
 # developer testing a mutated scratch worktree (VERIF_REPO=/var/tmp/wt) that has
 # no build output can keep using /repo's libraries.
-RB = os.environ.get("VERIF_REPO_BUILT", REPO) + "/aldor"
+RB = os.environ.get("VERIF_REPO_BUILT", "/repo") + "/aldor"
 SRC = R + "/aldor/src"                   # compiler sources
 COQ = VERIF + "/coq"
 GUARD = "-DALDOR_VERIF"
@@ -83,6 +83,35 @@ def makefile_am_sources(var):
     return [w for w in body.split() if w.endswith(".c")]
 
 
+_gen_dir = None
+
+
+def gen_dir():
+    """Sources the build generates (not tracked in git): the parser axl_y.c from axl.z
+    and the message database comsgdb.[ch] from comsgdb.msg.  They are regenerated here
+    from the CURRENT axl.z / comsgdb.msg with the repository's own tools, so an edit
+    to the grammar or to a message is seen by every check.  ~1.5 s, once per process."""
+    global _gen_dir
+    if _gen_dir:
+        return _gen_dir
+    d = scratch("gen")
+    tools = RB + "/aldor/tools/unix"
+    rc, out, err = run([tools + "/zacc", "-p", "-y", "axl_y.yt", "-c", "axl_y.c", SRC + "/axl.z"], cwd=d, timeout=120)
+    if rc != 0 or not os.path.exists(d + "/axl_y.c"):
+        raise BuildError("zacc failed on axl.z:\n" + (out + err)[-2000:])
+    rc, out, err = run(["sed", "-f", SRC + "/axl_y.sed", "axl_y.c"], cwd=d)
+    open(d + "/axl_y.c", "w").write(out)
+    shutil.copy(SRC + "/comsgdb.msg", d + "/comsgdb.msg")
+    rc, out, err = run([tools + "/msgcat", "-h", "-c", "-detab", "comsgdb"], cwd=d, timeout=60)
+    if rc != 0 or not os.path.exists(d + "/comsgdb.c"):
+        raise BuildError("msgcat failed on comsgdb.msg:\n" + (out + err)[-2000:])
+    _gen_dir = d
+    return d
+
+
+GENERATED = ("axl_y.c", "comsgdb.c")
+
+
 def cc_objs(files, outdir, defs=(), srcdir=None, extra=()):
     """Compile the given .c files (relative to srcdir, default SRC) of the
     CURRENT working tree into outdir/*.o in parallel. Returns list of .o."""
@@ -91,9 +120,11 @@ def cc_objs(files, outdir, defs=(), srcdir=None, extra=()):
     jobs = []
     for f in files:
         src = f if os.path.isabs(f) else os.path.join(srcdir, f)
+        if f in GENERATED:
+            src = os.path.join(gen_dir(), f)
         obj = os.path.join(outdir, os.path.basename(f)[:-2] + ".o")
         cmd = ["gcc", "-c"] + CFLAGS + DEFS + list(defs) + list(extra) + \
-              ["-I", SRC, "-I", SRC + "/java", src, "-o", obj]
+              ["-I", gen_dir(), "-I", SRC, "-I", SRC + "/java", "-idirafter", RB + "/aldor/src", src, "-o", obj]
         jobs.append((cmd, obj))
 
     def one(j):
